@@ -26,13 +26,15 @@ import (
 )
 
 var (
-	flagWorker = flag.Int("worker", -1, "internal: run as worker i")
-	flagWTmp   = flag.String("wtmp", "", "internal: worker temp dir")
-	flagDepth  = flag.Int("depth", 0, "history depth (0 = tier default)")
-	flagProcs  = flag.Int("procs", 0, "worker processes (0 = one per core, max 16)")
-	flagReplay = flag.String("replay-history", "", "debug: JSON array of ops to run in-process on one Core, printing every answer")
-	flagBench  = flag.Bool("bench", false, "internal: time the phases of one Core life")
-	flagBudget = flag.Duration("budget", 0, "internal deadline (0 = tier default)")
+	flagWorker     = flag.Int("worker", -1, "internal: run as worker i")
+	flagWTmp       = flag.String("wtmp", "", "internal: worker temp dir")
+	flagDepth      = flag.Int("depth", 0, "history depth (0 = tier default)")
+	flagProcs      = flag.Int("procs", 0, "worker processes (0 = one per core, max 16)")
+	flagReplay     = flag.String("replay-history", "", "debug: JSON array of ops to run in-process on one Core, printing every answer")
+	flagBench      = flag.Bool("bench", false, "internal: time the phases of one Core life")
+	flagBudget     = flag.Duration("budget", 0, "internal deadline (0 = tier default)")
+	flagBaseDepth  = flag.Int("basedepth", 2, "history depth from the base configurations loaded from a YAML text")
+	flagReplayBase = flag.String("replay-base", "", "debug: id of the base configuration -replay-history starts from")
 )
 
 type node struct {
@@ -43,6 +45,8 @@ type node struct {
 	implKey  string
 	taint    string
 	depth    int
+	base     *BaseConf // the configuration file the history starts from
+	remain   int       // levels of edits still to apply below this state (0 = reached, not expanded)
 }
 
 // crashText keeps the head of a worker death report and, when the log tail contains one, the panic message (the
@@ -111,9 +115,24 @@ func main() {
 	}
 	deadline := time.Now().Add(budget)
 	ops := alphabet(r.Thorough())
-	allIdx := make([]int, len(ops))
-	for i := range allIdx {
-		allIdx[i] = i
+	bs := bases()
+	baseDepth := min(*flagBaseDepth, depth)
+	// the edits on a name that only some bases declare are applied in the states reached from those bases
+	opsOf := map[string][]int{}
+	for _, b := range bs {
+		for i, o := range ops {
+			if o.Only == "" || b.declares(o.Only) {
+				opsOf[b.ID] = append(opsOf[b.ID], i)
+			}
+		}
+	}
+	allIdx := opsOf[bs[0].ID]
+	pick := func(idx []int) []Op {
+		out := make([]Op, len(idx))
+		for i, x := range idx {
+			out[i] = ops[x]
+		}
+		return out
 	}
 
 	tmp, err := os.MkdirTemp("", "verif-c12-")
@@ -130,24 +149,35 @@ func main() {
 	}
 
 	r.Rule = fmt.Sprintf("BFS over histories of Control API edits, alphabet of %d edits (add/patch/replace x 4 names x payloads, delete x 4 names, "+
-		"global and pathdefaults patches, valid and invalid, incl. fields present with the zero value of their type: 0, false, empty list), "+
-		"every edit tried in every reached state up to depth %d; "+
-		"distinct = (kind, name, shape of the target before the edit, payload, outcome) classes", len(ops), depth)
+		"global and pathdefaults patches, valid and invalid, incl. fields present with the zero value of their type: 0, false, empty list; "+
+		"%d more edits on the name all_others where the base declares it), "+
+		"every edit tried in every reached state up to depth %d from the rendered base, and up to depth %d from each of %d base configurations LOADED FROM A YAML FILE TEXT "+
+		"(paths declared with an empty body / {} / null / ~ / one setting, paths absent / {} / empty, pathDefaults empty / {} / one setting, regexp and all_others entries "+
+		"with an empty body, all of them in one file); "+
+		"distinct = (file base when the edit is applied to the loaded base itself, kind, name, shape of the target before the edit, payload, outcome) classes",
+		len(allIdx), len(ops)-len(allIdx), depth, baseDepth, len(bs)-1)
 
-	root := &node{id: 0, model: initialModel(), depth: 0}
+	root := &node{id: 0, model: initialModel(), depth: 0, base: bs[0], remain: depth}
 	frontier := []*node{root}
-	seen := map[string]bool{}
 	nodes := 1
+	for _, b := range bs[1:] {
+		// the loaded file bases are roots of the same search: expanded at the first level, before anything else can
+		// consume the deadline
+		frontier = append(frontier, &node{id: nodes, model: b.Model, depth: 0, base: b, remain: baseDepth})
+		nodes++
+	}
+	seen := map[string]bool{}
+	startKeys := map[string]string{} // base id -> key of the state the Core starts in
+	baseEdits, baseStates := 0, 0
 	transitions := 0
 	cores := 0
 	undos := 0
 	harnessRetries := 0
 	requests := 0
 	stale, early := 0, 0
-	startKey := ""
 	completedDepth := 0
 	outcomes := map[string]int{}
-	levelSizes := []int{1}
+	levelSizes := []int{len(frontier)}
 	exhaustive := true
 	leafEdits := 0
 	crashFollowUps, crashesNotReproduced := 0, 0
@@ -155,15 +185,15 @@ func main() {
 	replayDeath := map[int]bool{} // jobs whose worker died before the node's state was reached
 	jobSeq := 1
 	nLeaf := 0
-	for _, o := range ops {
-		if o.Leaf {
+	for _, i := range allIdx {
+		if ops[i].Leaf {
 			nLeaf++
 		}
 	}
 
 	// determinism discipline: the root is expanded twice and must give identical results
 	{
-		j := &Job{Node: 0, Model: root.model, Ops: ops, OpIdx: allIdx}
+		j := &Job{Node: 0, Base: *root.base, Model: root.model, Ops: pick(allIdx), OpIdx: allIdx}
 		a := pool.Run([]any{j, j})
 		if a[0].Crash != "" || a[1].Crash != "" {
 			fail("worker crashed on the root state: %s%s", a[0].Crash, a[1].Crash)
@@ -181,7 +211,7 @@ func main() {
 		if string(b0) != string(b1) {
 			fail("nondeterministic: two expansions of the initial state differ")
 		}
-		startKey = r0.StartKey
+		startKeys[root.base.ID] = r0.StartKey
 		root.implKey = r0.NodeKey
 		seen[root.implKey+"|"+root.model.Key()+"|"] = true
 	}
@@ -199,15 +229,16 @@ func main() {
 		if parts > 8 {
 			parts = 8
 		}
-		per := (len(ops) + parts - 1) / parts
 		var jobs []any
 		var jobNode []*node
 		for _, n := range frontier {
-			for lo := 0; lo < len(ops); lo += per {
-				hi := min(lo+per, len(ops))
+			idx := opsOf[n.base.ID]
+			per := (len(idx) + parts - 1) / parts
+			for lo := 0; lo < len(idx); lo += per {
+				hi := min(lo+per, len(idx))
 				jobSeq++
-				jobs = append(jobs, &Job{ID: jobSeq - 1, Node: n.id, Prefix: n.prefix, PrefKeys: n.prefKeys, StartKey: startKey, Model: n.model, Taint: n.taint,
-					Ops: ops[lo:hi], OpIdx: allIdx[lo:hi]})
+				jobs = append(jobs, &Job{ID: jobSeq - 1, Node: n.id, Base: *n.base, Prefix: n.prefix, PrefKeys: n.prefKeys, StartKey: startKeys[n.base.ID],
+					Model: n.model, Taint: n.taint, Ops: pick(idx[lo:hi]), OpIdx: idx[lo:hi]})
 				jobNode = append(jobNode, n)
 			}
 		}
@@ -317,12 +348,13 @@ func main() {
 			jobs, jobNode, results = rj, rn, rr
 		}
 		var next []*node
+		newStates := 0
 		for i, res := range results {
 			n := jobNode[i]
 			if res.Crash != "" {
 				job := jobs[i].(*Job)
 				what := fmt.Sprintf("the process died while replaying history %v", n.prefix)
-				rep := map[string]any{"base": "api only, paths: {p1: {maxReaders: 1}}", "history": n.prefix}
+				rep := map[string]any{"base": n.base.describe(), "history": n.prefix}
 				if !replayDeath[job.ID] {
 					what = fmt.Sprintf("the server process died: history %v then %v", n.prefix, job.Ops[0])
 					rep["edit"] = job.Ops[0]
@@ -355,7 +387,17 @@ func main() {
 				}
 			}
 			if jr.HarnessError != "" {
-				fail("history %v: %s", n.prefix, jr.HarnessError)
+				fail("base %s, history %v: %s", n.base.ID, n.prefix, jr.HarnessError)
+			}
+			if jr.BaseNote != "" {
+				// not a verdict on the edits: the loader (or the table of bases) is what differs
+				fail("base configuration %s (%q) does not read back as its reference state %s: %s", n.base.ID, n.base.Text, n.model.Key(), jr.BaseNote)
+			}
+			if n.implKey == "" && len(n.prefix) == 0 {
+				// first answer about a file base: the state the Core starts in
+				n.implKey = jr.NodeKey
+				startKeys[n.base.ID] = jr.StartKey
+				seen[n.implKey+"|"+n.model.Key()+"|"] = true
 			}
 			if jr.NodeKey != n.implKey {
 				fail("nondeterministic: history %v reached %s, recorded %s", n.prefix, jr.NodeKey, n.implKey)
@@ -368,7 +410,7 @@ func main() {
 			for _, v := range jr.Viols {
 				op := ops[v.OpIdx]
 				r.Violation(v.Key, v.What+" "+v.Detail, map[string]any{
-					"base": "api only, paths: {p1: {maxReaders: 1}}", "history": n.prefix, "edit": op,
+					"base": n.base.describe(), "history": n.prefix, "edit": op,
 					"how": "start mediamtx with the base configuration, send the history then the edit to the Control API"})
 			}
 			var job *Job = jobs[i].(*Job)
@@ -377,6 +419,9 @@ func main() {
 				transitions++
 				r.Eval(1)
 				r.Distinct(or.Class)
+				if !n.base.Rendered && len(n.prefix) == 0 {
+					baseEdits++
+				}
 				oc := "rejected"
 				if or.Accepted {
 					oc = "accepted"
@@ -408,11 +453,17 @@ func main() {
 					continue
 				}
 				seen[key] = true
-				child := &node{id: nodes, model: or.NewModel, implKey: or.NewKey, taint: taint, depth: d + 1}
+				child := &node{id: nodes, model: or.NewModel, implKey: or.NewKey, taint: taint, depth: n.depth + 1, base: n.base, remain: n.remain - 1}
 				child.prefix = append(append([]Op(nil), n.prefix...), ops[oi])
 				child.prefKeys = append(append([]string(nil), n.prefKeys...), or.NewKey)
 				nodes++
-				next = append(next, child)
+				newStates++
+				if !n.base.Rendered {
+					baseStates++
+				}
+				if child.remain > 0 {
+					next = append(next, child)
+				}
 				if d+1 <= 3 {
 					r.Sample(map[string]any{"history": fmt.Sprint(child.prefix), "state": or.NewKey})
 				}
@@ -424,7 +475,10 @@ func main() {
 			break
 		}
 		completedDepth = d + 1
-		levelSizes = append(levelSizes, len(next))
+		levelSizes = append(levelSizes, newStates)
+		// the states with more levels below them come first: a state reached both ways is created (and kept) with the
+		// larger remainder, since the jobs of a level are judged in this order
+		sort.SliceStable(next, func(i, j int) bool { return next[i].remain > next[j].remain })
 		frontier = next
 	}
 	pool.Close()
@@ -437,13 +491,18 @@ func main() {
 	bound := fmt.Sprintf("all histories of length <= %d (every edit of the alphabet in every state reached by < %d edits)", completedDepth, completedDepth)
 	if nLeaf > 0 {
 		bound = fmt.Sprintf("all histories of length <= %d whose edits but the last are among the %d non-leaf edits (every one of the %d edits, incl. the %d "+
-			"zero-valued leaf edits, in every state reached by < %d non-leaf edits)", completedDepth, len(ops)-nLeaf, len(ops), nLeaf, completedDepth)
+			"leaf edits (zero-valued fields, refusals by the decoder), in every state reached by < %d non-leaf edits)", completedDepth, len(allIdx)-nLeaf, len(allIdx), nLeaf, completedDepth)
 	}
+	bound += fmt.Sprintf("; from each of the %d configurations loaded from a YAML text: all histories of length <= %d", len(bs)-1, min(completedDepth, baseDepth))
 	r.Set("bound_completed", bound)
+	r.Set("file_bases", len(bs)-1)
+	r.Set("edits_applied_to_a_loaded_file_base", baseEdits)
+	r.Set("new_states_reached_only_from_file_bases", baseStates)
 	r.Set("leaf_edits_in_alphabet", nLeaf)
 	r.Set("leaf_edit_successors_not_expanded", leafEdits)
 	r.Set("new_states_per_depth", levelSizes)
-	r.Set("alphabet_size", len(ops))
+	r.Set("alphabet_size", len(allIdx))
+	r.Set("alphabet_size_where_all_others_is_declared", len(ops))
 	var ocs []string
 	for k, v := range outcomes {
 		ocs = append(ocs, fmt.Sprintf("%s=%d", k, v))
@@ -456,6 +515,11 @@ func main() {
 	r.Set("jobs_reexecuted_after_an_environment_error", harnessRetries)
 	r.Note("informational, not a verdict: %d of %d reads issued right after a 200 answer (before the reload was known to be complete) "+
 		"differed from the read after quiescence", stale, early)
+	var baseIDs []string
+	for _, b := range bs[1:] {
+		baseIDs = append(baseIDs, fmt.Sprintf("%s=%q", b.ID, b.Text))
+	}
+	r.Set("file_base_texts", baseIDs)
 	r.Exhaustive = exhaustive && completedDepth == depth
 	r.Assumptions = []string{
 		"reads are compared after the reload triggered by the edit has completed (barrier through Core.run); the window between the 200 answer and conf.Store is not judged",
@@ -463,6 +527,7 @@ func main() {
 		"patch or replace of a missing name: the statement is silent, failure (nothing changes) and creation with exactly the given fields are both accepted",
 		"failure = any 4xx status; null and [] are equal in JSON comparisons; the private API port is masked",
 		"alphabet: 4 names x the listed payloads; credentials, nested structures (forward) and explicit nulls are outside the alphabet",
+		"file bases: the reference state of a base is written by hand next to its YAML text; a base whose reads do not equal that state is a harness error, not a verdict (loading is not this property)",
 		"quick tier: the zero-valued edits (0 / false / empty list in a present field) are leaves: applied and judged in every reached state, their successor states are not expanded (thorough: full members)",
 		"besides the differential expectation, every accepted edit is judged without conf.Load: each field of the reference state must be contained in the corresponding read, every other field of a path read must equal the path defaults read",
 	}
